@@ -7,6 +7,6 @@ CONSTANTS
   DVals = {}
   MaxIters = 0
   Degenerate = TRUE
-  StopOnExactRoot = FALSE
+  StopOnExactRoot = TRUE
 INVARIANT Verdict
 CHECK_DEADLOCK FALSE
